@@ -231,6 +231,14 @@ def main():
         from sm2lib import int_input
         d, priv = int_input(e, 'd', 32, 1, sm2model.N - 2)
         ev, eb = int_input(e, 'e', 32)
+
+        def roomy(sl_):
+            # the same bytes as a sub-slice of a longer array (spare capacity filled with a canary): an append into
+            # the spare capacity of an input is a write to the caller's memory as well
+            cells = list(e.heap[sl_.obj][0])
+            o = e.new_obj(cells + [0xC5] * 40, 'arr')
+            return Slice(o, (), 0, len(cells), len(cells) + 40)
+        priv, eb = roomy(priv), roomy(eb)
         before = [list(e.heap[s.obj][0]) for s in (priv, eb)]
         rd = sm2model.new_reader(e, 1)
         out = e.call_outcome(SM2 + '.SignHashed', [rd, priv, eb])
@@ -238,14 +246,19 @@ def main():
             return
         r, s, _ = out.values
         px, py = sm2model.reg_point(e, d)
-        pubx = e.new_slice([ByteOf(px, j, 32) for j in range(32)])
-        puby = e.new_slice([ByteOf(py, j, 32) for j in range(32)])
-        sl = [priv, eb, r, s, pubx, puby]
+        pubx = roomy(e.new_slice([ByteOf(px, j, 32) for j in range(32)]))
+        puby = roomy(e.new_slice([ByteOf(py, j, 32) for j in range(32)]))
+        r, s = roomy(r), roomy(s)
+        idb = roomy(e.new_slice([0x31 + (j % 8) for j in range(16)]))
+        sl = [priv, eb, r, s, pubx, puby, idb]
         snap = [list(e.heap[x.obj][0]) for x in sl]
         e.call_outcome(SM2 + '.VerifyHashed', [pubx, puby, eb, r, s])
-        for name, x, sn in zip(('priv', 'e', 'r', 's', 'pubx', 'puby'), sl, snap):
+        e.call_outcome(SM2 + '.ZA', [idb, pubx, puby])
+        e.call_outcome(SM2 + '.CheckOnCurve', [pubx, puby])
+        e.call_outcome(SM2 + '.DerivePublic', [priv])
+        for name, x, sn in zip(('priv', 'e', 'r', 's', 'pubx', 'puby', 'id'), sl, snap):
             if [sm2model.cell_key(c) for c in e.heap[x.obj][0]] != [sm2model.cell_key(c) for c in sn]:
-                add('sm2.inputs', 'SignHashed/VerifyHashed modify their %s argument' % name, {})
+                add('sm2.inputs', 'SignHashed/VerifyHashed/ZA/CheckOnCurve/DerivePublic write to the %s argument or to the spare capacity behind it' % name, {})
         if [sm2model.cell_key(c) for c in e.heap[priv.obj][0]] != [sm2model.cell_key(c) for c in before[0]]:
             add('sm2.inputs', 'SignHashed modifies the private key slice', {})
     peng.explore(run_sm2)
@@ -300,8 +313,76 @@ func TestVerifReplay(t *testing.T) {
 }''' % (keylit, ts, keylit, ts, pl, dstexpr, dstexpr, ts)
         return ck.go_test('sm4', src, name='buf_' + re.sub(r'\W', '_', k))
 
+    # SM2 / SM3 entry points on the real build: every byte-slice argument is a sub-slice of a longer array with a canary
+    # behind it; neither the argument bytes nor the canary may change, and a repeated call gives the same answer
+    src_sm2 = '''package sm2
+import ("testing"; "bytes"; "github.com/bilibili/smgo/sm3")
+type fixedReader struct{ b byte }
+func (r *fixedReader) Read(p []byte) (int, error) { for i := range p { p[i] = r.b + byte(i) }; return len(p), nil }
+func TestVerifReplay(t *testing.T) {
+	var arrays [][]byte; var copies [][]byte; var names []string
+	roomy := func(name string, b []byte) []byte {
+		arr := make([]byte, len(b)+40); copy(arr, b)
+		for i := len(b); i < len(arr); i++ { arr[i] = 0xC5 }
+		arrays = append(arrays, arr); copies = append(copies, append([]byte{}, arr...)); names = append(names, name)
+		return arr[:len(b):len(arr)]
+	}
+	check := func(after string) {
+		for i := range arrays { if !bytes.Equal(arrays[i], copies[i]) { t.Fatalf("%s modified (argument bytes or the spare capacity behind them) by %s", names[i], after) } }
+	}
+	privb := make([]byte, 32); for i := range privb { privb[i] = byte(7*i + 3) }
+	priv := roomy("private key", privb)
+	px0, py0, err := DerivePublic(priv); if err != nil { t.Fatal(err) }
+	check("DerivePublic")
+	px, py := roomy("public key x", px0), roomy("public key y", py0)
+	id := roomy("id", []byte("1234567812345678")); msg := roomy("message", []byte("message digest"))
+	e := roomy("digest", bytes.Repeat([]byte{0x5a}, 32))
+	r0, s0, err := SignHashed(&fixedReader{9}, priv, e); if err != nil { t.Fatal(err) }
+	check("SignHashed")
+	r, s := roomy("r", r0), roomy("s", s0)
+	if ok, err := VerifyHashed(px, py, e, r, s); !ok || err != nil { t.Fatalf("VerifyHashed: %v %v", ok, err) }
+	check("VerifyHashed")
+	if ok, _ := VerifyHashed(px, py, e, r, s); !ok { t.Fatalf("second VerifyHashed on the same buffers fails") }
+	za0, err := ZA(id, px, py); if err != nil { t.Fatal(err) }
+	check("ZA")
+	za := roomy("ZA", za0)
+	r1, s1, err := Sign(id, px, py, &fixedReader{5}, priv, msg); if err != nil { t.Fatal(err) }
+	check("Sign")
+	rr, ss := roomy("r (Sign)", r1), roomy("s (Sign)", s1)
+	if ok, err := Verify(id, px, py, msg, rr, ss); !ok || err != nil { t.Fatalf("Verify: %v %v", ok, err) }
+	check("Verify")
+	if ok, err := VerifyZa(px, py, za, msg, rr, ss); !ok || err != nil { t.Fatalf("VerifyZa: %v %v", ok, err) }
+	check("VerifyZa")
+	if _, _, err := SignZa(&fixedReader{5}, priv, za, msg); err != nil { t.Fatal(err) }
+	check("SignZa")
+	if !CheckOnCurve(px, py) { t.Fatalf("CheckOnCurve") }
+	check("CheckOnCurve")
+	TestPrivateKey(priv); check("TestPrivateKey")
+	// sm3: Write must not modify its argument, Sum appends to its argument
+	data := roomy("sm3 data", bytes.Repeat([]byte{0xab}, 150))
+	h := sm3.New(); h.Write(data); check("sm3 Write")
+	pre := roomy("Sum prefix", []byte{1, 2, 3, 4})
+	out := h.Sum(pre)
+	if !bytes.Equal(out[:4], []byte{1, 2, 3, 4}) || len(out) != 36 { t.Fatalf("Sum(prefix) is not prefix || digest") }
+	d2 := sm3.SumSM3(data); if !bytes.Equal(out[4:], d2[:]) { t.Fatalf("Sum(prefix) digest differs from SumSM3") }
+	copies[len(copies)-1] = append(append([]byte{}, pre...), arrays[len(arrays)-1][4:]...)   // Sum may use the spare capacity of its own prefix
+	check("sm3 Sum")
+}'''
+    ok_sm2, out_sm2, path_sm2 = ck.go_test('sm2', src_sm2, name='inputs_sm2')
+    if ok_sm2 is True:
+        ck.validated += 1
+    elif ok_sm2 is False and not any(k.startswith('sm2.') for k in fails):
+        fails.setdefault('sm2.inputs', []).append(('an SM2/SM3 entry point modifies an input buffer or the spare capacity behind it: ' + (out_sm2 or '')[-200:].replace('\n', ' '), {}))
+
     for k, fl in sorted(fails.items()):
         desc, case = fl[0]
+        if k.startswith('sm2.'):
+            if ok_sm2 is False:
+                ck.record('buffers[' + k + ']', 'violated', desc + ' - confirmed on the real build: ' + (out_sm2 or '')[-200:].replace('\n', ' '))
+                ck.violation(k, desc, path_sm2)
+            else:
+                ck.encoder_mismatch('buffers[' + k + ']', desc)
+            continue
         if k.startswith('sm2.') or k.startswith('Encrypt') or k.startswith('NewCipher'):
             ck.record('buffers[' + k + ']', 'violated', desc + ' (write observed in the symbolic store log)')
             ck.violation(k, desc, '-')
